@@ -93,7 +93,15 @@ pub fn compare_parsed(p: &Parsed, bytes: &[u8], model: &[ModelEntry], comment: &
                 if e.local_extra != want_local {
                     return Err(format!("entry {i}: local extra field ({} bytes) != [own ZIP64 record] + supplied local extra data ({} bytes)", e.local_extra.len(), want_local.len()));
                 }
-                if e.central_extra != m.central_extra {
+                // the writer's own central ZIP64 record (present iff a 32-bit field cannot hold its value; its
+                // contents are validated by the strict parser) comes first, then the caller's data
+                let central_user: &[u8] = if e.central_has_zip64 && e.central_extra.len() >= 4 && e.central_extra[0..2] == [1, 0] {
+                    let l = u16::from_le_bytes([e.central_extra[2], e.central_extra[3]]) as usize;
+                    e.central_extra.get(4 + l..).unwrap_or(&[])
+                } else {
+                    &e.central_extra[..]
+                };
+                if central_user != &m.central_extra[..] {
                     return Err(format!("entry {i}: central extra field ({} bytes) != supplied central extra data ({} bytes)", e.central_extra.len(), m.central_extra.len()));
                 }
             }
@@ -208,6 +216,32 @@ pub struct Reject {
     len: u32,
     large: bool,
     multibyte: bool,
+    /// position of the sink when the writer starts (>= 2^32: every central record needs a ZIP64 offset)
+    #[serde(default)]
+    start: u64,
+    /// after a refused call keep issuing the remaining calls and finish()
+    #[serde(default)]
+    cont: bool,
+}
+
+/// Run the program on a sparse sink positioned at `start`. With `cont`, a refused op is skipped and the
+/// remaining ops are still issued. Returns (sink, finish result, indices of refused ops).
+fn run_reject(p: &Program, start: u64, cont: bool) -> (crate::sio::Shared<crate::sio::SparseFile>, Result<(), String>, Vec<usize>) {
+    let file = crate::sio::Shared::new(crate::sio::SparseFile::at_position(start));
+    let mut w = std::mem::ManuallyDrop::new(ZipWriter::new(file.clone()));
+    let mut refused = Vec::new();
+    for (i, op) in p.ops.iter().enumerate() {
+        if let Err(e) = gen::apply(&mut w, op) {
+            refused.push(i);
+            if !cont {
+                // closing the writer is still exercised (no panic), its result does not matter
+                let _ = w.finish();
+                return (file, Err(e), refused);
+            }
+        }
+    }
+    let r = w.finish().map(|_| ()).map_err(|e| format!("finish: {e}"));
+    (file, r, refused)
 }
 
 fn reject_program(r: &Reject) -> Program {
@@ -247,7 +281,7 @@ fn reject_program(r: &Reject) -> Program {
 }
 
 pub fn run(ctx: &mut Ctx) {
-    ctx.rule("scenarios: C01-style programs extended with extra-data / aligned / ZipCrypto entries, optional raw copies from a generated source archive and an optional append round; every successful finish() is judged by the independent strict parser (offsets, counts, sizes, local/central agreement, UTF-8 flag, ZIP64 consistency, TLV extras, decoded CRC/size) and compared field by field with the model; a sample is also judged by CPython zipfile and unzip -t. Non-trivial = >=2 entries or an extra/aligned/encrypted/raw/appended entry. reject: name/comment/extra lengths around 65535/65536 - the oracle is 'some call returns Err, or the archive parses strictly and carries the full-length field'.");
+    ctx.rule("scenarios: C01-style programs extended with extra-data / aligned / ZipCrypto entries, optional raw copies from a generated source archive and an optional append round; every successful finish() is judged by the independent strict parser (offsets, counts, sizes, local/central agreement, UTF-8 flag, ZIP64 consistency, TLV extras, decoded CRC/size) and compared field by field with the model; a sample is also judged by CPython zipfile and unzip -t. Non-trivial = >=2 entries or an extra/aligned/encrypted/raw/appended entry. reject: name/comment/extra lengths around 65535/65536, with the writer starting at offset 0, just below 2^32 and above 2^32 (sparse sink; central records then need their own ZIP64 record next to the caller's extra data), stopping at the first refusal or continuing with the remaining calls - the oracle is 'some call returns Err, or the archive parses strictly and carries the full-length field'; whenever finish() returns Ok the archive must parse strictly and hold exactly the entries whose creation succeeded.");
     ctx.assume("version-needed is only required to agree between local and central header and be >=45 when a central ZIP64 record is present");
     ctx.assume("CPython zipfile / Info-ZIP unzip are trusted on the feature subset they support; unzip exit status 1 (warning) is not treated as rejection");
 
@@ -344,44 +378,70 @@ pub fn run(ctx: &mut Ctx) {
     // reject domain
     let kinds = ["name", "dirname", "symlink-name", "comment", "extra-shared", "extra-local", "extra-central"];
     let lens = [65515u32, 65516, 65534, 65535, 65536, 65537, 70000, 131072];
-    let total = (kinds.len() * lens.len() * 4) as u64;
+    let starts = [0u64, 0xFFFF_FFFF - 30, 0x1_0000_0040];
+    let base = kinds.len() * lens.len() * 4;
+    let total = (base * starts.len() * 2) as u64;
     ctx.enumerate::<Reject>(
         "reject",
         total,
         &|i| {
             let i = i as usize;
-            Reject { kind: kinds[i % kinds.len()].to_string(), len: lens[(i / kinds.len()) % lens.len()], large: (i / (kinds.len() * lens.len())) % 2 == 1, multibyte: i / (kinds.len() * lens.len() * 2) == 1 }
+            let j = i % base;
+            let k = i / base;
+            Reject { kind: kinds[j % kinds.len()].to_string(), len: lens[(j / kinds.len()) % lens.len()], large: (j / (kinds.len() * lens.len())) % 2 == 1, multibyte: j / (kinds.len() * lens.len() * 2) == 1, start: starts[k % starts.len()], cont: k / starts.len() == 1 }
         },
         &|r: &Reject, info: &mut Info| {
             info.nontrivial = true;
             info.label_if(r.len > 65535, "unrepresentable-length");
             info.label_if(r.len <= 65535, "boundary-length");
+            info.label_if(r.start > 0, "sink-starts-near-or-above-4GiB");
+            info.label_if(r.cont, "calls-continue-after-refusal");
             let p = reject_program(r);
-            let res = catch(|| gen::run_program(&p, false));
-            match res {
-                Err(pm) => Verdict::Fail(format!("PANIC for {} of {} bytes (large_file={}): {pm}", r.kind, r.len, r.large)),
-                Ok(Err(_)) => {
-                    info.label("refused-with-error");
-                    // refusing is a violation only when the input clearly fits: extra data must
-                    // leave room for the writer's own ZIP64 record (up to 28 bytes)
-                    let dirslash = if r.kind == "dirname" { 1 } else { 0 };
-                    let fits = match r.kind.as_str() {
-                        "extra-shared" | "extra-local" | "extra-central" => r.len + 28 <= 65535,
-                        _ => r.len + dirslash <= 65535,
-                    };
-                    if fits {
-                        Verdict::Fail(format!("{} of {} bytes (large_file={}) is representable but was refused", r.kind, r.len, r.large))
-                    } else {
-                        Verdict::Pass
-                    }
+            let what = format!("{} of {} bytes (large_file={}, writer starts at offset {:#x}{})", r.kind, r.len, r.large, r.start, if r.cont { ", calls continue after a refusal" } else { "" });
+            let (file, fin, refused) = match catch(|| run_reject(&p, r.start, r.cont)) {
+                Err(pm) => return Verdict::Fail(format!("PANIC for {what}: {pm}")),
+                Ok(x) => x,
+            };
+            let fits = {
+                // refusing is a violation only when the input clearly fits: extra data must
+                // leave room for the writer's own ZIP64 record (up to 28 bytes)
+                let dirslash = if r.kind == "dirname" { 1 } else { 0 };
+                match r.kind.as_str() {
+                    "extra-shared" | "extra-local" | "extra-central" => r.len + 28 <= 65535,
+                    _ => r.len + dirslash <= 65535,
                 }
-                Ok(Ok(bytes)) => {
-                    info.label("accepted");
-                    let (model, comment) = gen::model(&p);
-                    match parse::parse(&bytes[..], parse::Opts::strict()).and_then(|pp| compare_parsed(&pp, &bytes, &model, &comment)) {
-                        Ok(()) => Verdict::Pass,
-                        Err(e) => Verdict::Fail(format!("{} of {} bytes (large_file={}) accepted, finish() Ok, but the archive is corrupt: {e}", r.kind, r.len, r.large)),
+            };
+            if !refused.is_empty() || fin.is_err() {
+                info.label("refused-with-error");
+                if fits {
+                    return Verdict::Fail(format!("{what} is representable but was refused ({})", fin.as_ref().err().cloned().unwrap_or_else(|| format!("op {:?}", refused))));
+                }
+            }
+            match fin {
+                Err(_) => Verdict::Pass,
+                Ok(()) => {
+                    info.label("finish-ok");
+                    // success was reported: the bytes must be a valid archive holding exactly the
+                    // entries whose creation succeeded
+                    let mut q = p.clone();
+                    let name_refusal = matches!(r.kind.as_str(), "name" | "dirname" | "symlink-name");
+                    for &i in refused.iter().rev() {
+                        q.ops.remove(i);
                     }
+                    let (model, comment) = gen::model(&q);
+                    let opts = parse::Opts { lenient: false, allow_leading_gap: true, decode_limit: 64 << 20, allow_trailing: false };
+                    let parsed = match parse::parse(&file, opts) {
+                        Ok(pp) => pp,
+                        Err(e) => return Verdict::Fail(format!("{what}: finish() Ok, but the archive is corrupt: {e}")),
+                    };
+                    if refused.is_empty() || name_refusal {
+                        // (a refused extra-data entry leaves an entry whose state the docs do not define:
+                        // only structural validity is demanded there)
+                        if let Err(e) = compare_parsed(&parsed, &[], &model, &comment) {
+                            return Verdict::Fail(format!("{what}: finish() Ok, but the archive is wrong: {e}"));
+                        }
+                    }
+                    Verdict::Pass
                 }
             }
         },
